@@ -23,6 +23,7 @@ package participle
 //@   requires lex != nil
 //@   ensures result.PeekingLexer == *lex && result.lookahead == lookahead && result.caseInsensitive == caseInsensitive
 //@   ensures result.apply == nil && result.deepestError == nil && result.deepestErrorDepth == 0 && result.depth == 0 && result.trace == nil && result.allowTrailing == false
+//@   ensures result.firstMatch == -1
 
 //@ func (*parseContext).Branch [C02 C01 C13]
 //@   frame-tags C09
@@ -30,6 +31,7 @@ package participle
 //@   ensures result != nil && fresh(result) && result.PeekingLexer == p.PeekingLexer && result.apply == nil && len(result.apply) == 0
 //@   ensures result.lookahead == p.lookahead && result.deepestErrorDepth == p.deepestErrorDepth && result.deepestError == p.deepestError
 //@   ensures result.caseInsensitive == p.caseInsensitive && result.allowTrailing == p.allowTrailing && result.trace == p.trace && result.depth == p.depth
+//@   ensures result.firstMatch == p.firstMatch
 
 //@ func (*parseContext).Defer [C02 C01]
 //@   frame-tags C09
@@ -42,7 +44,8 @@ package participle
 //@   frame-tags C09
 //@   requires branch != nil && p != branch
 //@   ensures errOK(old(p.deepestError)) && errOK(branch.deepestError) ==> errOK(p.deepestError) [C06]
-//@   modifies p.apply, p.PeekingLexer, p.deepestError, p.deepestErrorDepth
+//@   modifies p.apply, p.PeekingLexer, p.deepestError, p.deepestErrorDepth, p.firstMatch
+//@   ensures p.firstMatch == ite(old(p.firstMatch) < 0, branch.firstMatch, old(p.firstMatch))
 //@   ensures len(p.apply) == len(old(p.apply)) + len(branch.apply) && (p.apply == old(p.apply) || fresh(p.apply))
 //@   ensures forall(k, 0, len(old(p.apply)), p.apply[k] == old(p.apply[k]))
 //@   ensures forall(k, 0, len(branch.apply), p.apply[len(old(p.apply)) + k] == branch.apply[k])
@@ -81,7 +84,9 @@ package participle
 //@   requires branch != nil && p != branch
 //@   requires @assumed 0 <= p.cursor && p.cursor <= 9223372036854775807 && 0 <= branch.cursor && branch.cursor <= 9223372036854775807
 //@   requires @assumed -9223372036854775808 <= p.lookahead && p.lookahead <= 9223372036854775807
-//@   modifies p.apply, p.PeekingLexer, p.deepestError, p.deepestErrorDepth
+//@   modifies p.apply, p.PeekingLexer, p.deepestError, p.deepestErrorDepth, p.firstMatch
+//@   ensures result ==> p.firstMatch == ite(old(p.firstMatch) < 0, branch.firstMatch, old(p.firstMatch))
+//@   ensures !result ==> p.firstMatch == old(p.firstMatch)
 //@   ensures @threshold result == (p.lookahead >= 0 && branch.cursor - old(p.cursor) > p.lookahead)
 //@   ensures result ==> p.PeekingLexer == branch.PeekingLexer && len(p.apply) == len(old(p.apply)) + len(branch.apply) && (p.apply == old(p.apply) || fresh(p.apply))
 //@   ensures result ==> forall(k, 0, len(old(p.apply)), p.apply[k] == old(p.apply[k])) && forall(k, 0, len(branch.apply), p.apply[len(old(p.apply)) + k] == branch.apply[k])
@@ -143,7 +148,7 @@ package participle
 //@ interface node.Parse
 //@   params self, ctx, parent
 //@   requires ctx != nil && pcInv(ctx) && wf(self) && errOK(ctx.deepestError)
-//@   modifies ctx.PeekingLexer, ctx.apply, ctx.deepestError, ctx.deepestErrorDepth, ctx.depth
+//@   modifies ctx.PeekingLexer, ctx.apply, ctx.deepestError, ctx.deepestErrorDepth, ctx.depth, ctx.firstMatch
 //@   ensures pcInv(ctx) && ctx.tokens == old(ctx.tokens) && ctx.elide == old(ctx.elide)
 //@   ensures ctx.rawCursor >= old(ctx.rawCursor) && ctx.cursor >= old(ctx.cursor)
 //@   ensures result1 == nil && len(result0) == 0 ==> ctx.Checkpoint == old(ctx.Checkpoint) && len(ctx.apply) == len(old(ctx.apply))
@@ -204,7 +209,8 @@ package participle
 //@   ensures @otherEntries forall(k, len(old(ctx.apply)), len(ctx.apply)-1, ctx.apply[k] != nil && ctx.apply[k].strct == parent)
 //@   before call (*participle.parseContext).Defer#1: assert forall(k, len(old(ctx.apply)), len(ctx.apply), ctx.apply[k] != nil && ctx.apply[k].strct == parent)
 //@   before call (*participle.parseContext).Defer#1: assert strct == parent && field == c.field && fieldValue == v && len(v) >= 0
-//@   before call (*participle.parseContext).Defer#1: assert tokens == ctx.tokens[start:ctx.rawCursor] [C11 C01]
+//@   before call (*participle.parseContext).Defer#1: assert tokens == ctx.tokens[from:ctx.rawCursor] && start <= from && from <= ctx.rawCursor [C11 C01 C10]
+//@   before call (*participle.parseContext).Defer#1: assert from == ite(ctx.firstMatch >= start && ctx.firstMatch <= ctx.rawCursor, ctx.firstMatch, start) [C10 C01]
 
 // setField writes the captured values into the struct through reflection (C17); it does not touch the
 // parse context. Its own obligations are under "conform"/"setField" below.
@@ -347,7 +353,7 @@ package participle
 //@   frame-tags C09
 //@   requires ctx != nil && pcInv(ctx) && errOK(ctx.deepestError)
 //@   requires @assumed uf("fn__reflect.Value_.Kind_r0", "Int", rv) == reflect.Ptr
-//@   modifies ctx.PeekingLexer, ctx.apply, ctx.deepestError, ctx.deepestErrorDepth, ctx.depth
+//@   modifies ctx.PeekingLexer, ctx.apply, ctx.deepestError, ctx.deepestErrorDepth, ctx.depth, ctx.firstMatch
 //@   assume call node.Parse#1: arg0 != nil && wf(arg0)
 //@   assume call fmt.Errorf#1: false
 //@   ensures errOK(result) && errOK(ctx.deepestError) && pcInv(ctx) && ctx.tokens == old(ctx.tokens) && ctx.elide == old(ctx.elide)
@@ -357,7 +363,7 @@ package participle
 //@ func (*Parser[G]).parseOne [C06 C01 C15]
 //@   frame-tags C09
 //@   requires ctx != nil && pcInv(ctx) && errOK(ctx.deepestError)
-//@   modifies ctx.PeekingLexer, ctx.apply, ctx.deepestError, ctx.deepestErrorDepth, ctx.depth
+//@   modifies ctx.PeekingLexer, ctx.apply, ctx.deepestError, ctx.deepestErrorDepth, ctx.depth, ctx.firstMatch
 //@   ensures errOK(result) && pcInv(ctx) && ctx.tokens == old(ctx.tokens) && ctx.elide == old(ctx.elide)
 //@   ensures result == nil ==> ctx.allowTrailing || eofAt(&ctx.PeekingLexer, ctx.nextCursor) [C01]
 
